@@ -90,6 +90,7 @@ def run(ctx, rep):
         rep.ob("single-writer", "no-raw-writes", not writers, f"apply_relocation performs no raw byte writes itself ({sorted(writers)})", ar.file, ar.line)
         w2b = [bi for bi, t in flow.calls() if callee_key(t["f"]) == "linker_utils::elf::RelocationKindInfo::write_to_buffer"]
         rep.ob("single-writer", "uses-write_to_buffer", len(w2b) >= 1, "the computed value goes through write_to_buffer (range checked, C12)", ar.file, ar.line)
+    got_slot_layout(ctx, rep, F, P)
     rep.assume("values depend on layout addresses and the dynamic loader: not decided")
 
 
@@ -129,3 +130,99 @@ def check_dynreloc(rep, F, FD):
                     name = f"fold error: {e}"
                 rep.ob("dynreloc", f"{arch}:{k}:roundtrip", name == k, f"from_{arch}_r_type({arch}_r_type({k})) = {name}")
     rep.floor("dynreloc", "architectures with dynamic relocation tables", n_tables, 2)
+
+
+def got_slot_layout(ctx, rep, F, P):
+    """Reader / writer / allocator agreement on the per-symbol GOT slot layout of TLS symbols.
+
+    A TLS symbol may own up to three groups of GOT slots: [TPOFF][DTPMOD,DTPOFF][TLSDESC x2]. The relocation code *reads* a group's address
+    through Resolution::{got_address, tlsgd_got_address, tls_descriptor_got_address}; TableWriter::process_resolution *writes* the groups at
+    running offsets; create_resolution / allocate_resolution reserve the slots. For every combination of the three flags the offset a reader
+    returns for a group must be the offset at which the writer fills that group (otherwise e.g. a TLSDESC reference lands on the TPOFF slot)."""
+    import decide
+    from mir import stable
+    rep.rule("got-slot-layout", "for every combination of needs_got_tls_{offset,module,descriptor}: the offset returned by tlsgd_got_address / "
+             "tls_descriptor_got_address equals the offset at which process_resolution writes that group; the GOT bytes reserved equal 8/16/16 per group")
+    FL = {"o": "needs_got_tls_offset", "m": "needs_got_tls_module", "d": "needs_got_tls_descriptor"}
+
+    def flags_of(assign):
+        out = {}
+        for a, v in assign.items():
+            for k, nm in FL.items():
+                if nm + "(" in a and isinstance(v, bool):
+                    out[k] = v
+        return out
+    base = lambda k: "got" if k.endswith("::got_address") else None
+    tg = F.body("libwild::elf::tlsgd_got_address")
+    td = F.body("libwild::elf::tls_descriptor_got_address")
+    wr = next((b for b in F.all_bodies if stable(b.key).endswith("TableWriter::process_resolution")), None)
+    if tg is None or td is None or wr is None:
+        rep.lost("got-slot-layout", "tlsgd_got_address / tls_descriptor_got_address / TableWriter::process_resolution")
+        return
+    try:
+        t_gd = decide.lin_paths(P, F, tg, base_call=base)
+        t_desc = decide.lin_paths(P, F, td, base_call=base, inline={tg.key: t_gd})
+        EV = {"process_got_tls_offset": "o", "process_got_tls_mod_and_offset": "m", "process_got_tls_descriptor": "d"}
+        t_wr = decide.lin_paths(P, F, wr, event_call=lambda k: EV.get(k.split("::")[-1]))
+    except decide.NotLoopFree as e:
+        rep.ob("got-slot-layout", "tabulate", False, f"one of the three functions is no longer loop-free ({e})", td.file, td.line)
+        return
+    readers = {"m": t_gd, "d": t_desc}
+    written = {}      # (group, o, m, d) -> offset
+    for assign, _res, events in t_wr:
+        fl = flags_of(assign)
+        if len(fl) < 3:
+            continue
+        for tag, args in events:
+            offs = [a for a in args if a and a[0] == "lin" and "got_address" in str(a[1])]
+            if len(offs) != 1:
+                rep.ob("got-slot-layout", f"writer-arg:{tag}", False, f"cannot identify the GOT address argument of the writer for group `{tag}`: {args}", wr.file, wr.line)
+                continue
+            written.setdefault((tag, fl["o"], fl["m"], fl["d"]), set()).add(offs[0][2])
+    rep.floor("got-slot-layout", "writer (group, flags) combinations tabulated", len(written), 12)
+    n = 0
+    for grp, table in readers.items():
+        for assign, res, _ev in table:
+            fl = flags_of(assign)
+            if res is None or res[0] != "lin" or res[1] != "got":
+                rep.ob("got-slot-layout", f"reader:{grp}:shape", False, f"reader of group `{grp}` returns {res}, not got_address + constant", td.file, td.line)
+                continue
+            # all completions of the flags the reader did not test
+            for o in ([fl["o"]] if "o" in fl else [False, True]):
+                for m in ([fl["m"]] if "m" in fl else [False, True]):
+                    for d in ([fl["d"]] if "d" in fl else [False, True]):
+                        if not {"m": m, "d": d}[grp]:
+                            continue    # the group does not exist for this symbol
+                        w = written.get((grp, o, m, d))
+                        n += 1
+                        rep.ob("got-slot-layout", f"{'tlsgd' if grp == 'm' else 'tlsdesc'}:offset={int(o)},module={int(m)},descriptor={int(d)}", w == {res[2]},
+                               f"reader returns got+{res[2]}, writer fills the group at got+{sorted(w) if w else '?'}" + ("" if w == {res[2]} else
+                               ": references to this group are resolved to a slot that holds something else"), td.file if grp == "d" else tg.file, td.line if grp == "d" else tg.line)
+    rep.floor("got-slot-layout", "reader/writer comparisons", n, 8)
+    # the TPOFF group is read through got_address() itself: the writer must fill it at offset 0
+    for (grp, o, m, d), w in sorted(written.items()):
+        if grp == "o":
+            rep.ob("got-slot-layout", f"tpoff:offset={int(o)},module={int(m)},descriptor={int(d)}", w == {0}, f"the TPOFF slot is written at got+{sorted(w)} (readers use got_address())", wr.file, wr.line)
+    # reservation: bytes of GOT reserved per group in allocate_resolution
+    al = next((b for b in F.all_bodies if stable(b.key).endswith("::allocate_resolution") and "elf::Elf" in b.key), None)
+    if al is None:
+        rep.lost("got-slot-layout", "Elf::allocate_resolution")
+        return
+    flow, cfg = P.flow(al), P.cfg(al)
+    from mir import callee_key, op_const, expr_tree, render, simplify
+    per = {}
+    for bi, t in flow.calls():
+        if (callee_key(t["f"]) or "").endswith("::increment") and len(t["args"]) >= 3:
+            c = op_const(t["args"][1])
+            if not c or not (c.get("def") or "").endswith("part_id::GOT"):
+                continue
+            at = decide.atoms_at(P, F, al, bi)
+            size = render(simplify(expr_tree(P, al, t["args"][2], depth=5, expand_params=0)))
+            for k, nm in FL.items():
+                if any(nm in a and v is True for a, v in at):
+                    per.setdefault(k, []).append(size)
+    want = {"o": ("8", "GOT_ENTRY_SIZE"), "m": ("16", "Mul(8, 2)", "Mul(2, 8)"), "d": ("16", "Mul(8, 2)", "Mul(2, 8)")}
+    for k in "omd":
+        got = per.get(k, [])
+        ok = len(got) == 1 and any(w == got[0] or got[0].replace(" ", "") == w.replace(" ", "") for w in want[k])
+        rep.ob("got-slot-layout", f"reserve:{FL[k]}", ok, f"GOT bytes reserved under {FL[k]}: {got} (group size {'8' if k == 'o' else '16'})", al.file, al.line)
